@@ -73,6 +73,13 @@ func condTrue(r *http.Request) bool {
 		t.Count("reach:yield-inside-read-lock")
 		t.Y(sim.SiteCond)
 	}
+	if r.Header.Get("X-Boom") != "" {
+		// user code panicking inside route selection, i.e. inside the read-locked region
+		if t := sim.Cur(); t != nil {
+			t.Count("fault-panic-in-route-condition")
+		}
+		panic("boom-in-condition")
+	}
 	return true
 }
 
@@ -204,6 +211,8 @@ func (s RegState) Apply(o AdminOp) RegState {
 		n.Routes[o.Svc] = removeInt(n.Routes[o.Svc], o.Route)
 	case "handle", "handlef":
 		n.Plain = append(n.Plain, o.Plain)
+	case "handle-dup":
+		// rejected (Handle panics on a pattern that is taken): no change
 	}
 	return n
 }
@@ -340,6 +349,18 @@ func (w *World) Do(o AdminOp) {
 		w.C.Handle(w.Plains[o.Plain].Pattern, plainHandler(o.Plain))
 	case "handlef":
 		w.C.HandleWithFilter(w.Plains[o.Plain].Pattern, plainHandler(o.Plain))
+	case "handle-dup":
+		func() {
+			defer func() {
+				if recover() != nil {
+					if t := sim.Cur(); t != nil {
+						t.Count("reach:rejected-handle-call")
+					}
+				}
+			}()
+			// a different handler for a pattern that is taken: if it ever becomes live, probes show it
+			w.C.Handle(w.Plains[o.Plain].Pattern, plainHandler(1000+o.Plain))
+		}()
 	}
 }
 
@@ -351,10 +372,11 @@ type Probe struct {
 	CT     string `json:"ct,omitempty"`
 	Accept string `json:"accept,omitempty"`
 	Body   bool   `json:"body,omitempty"`
+	Boom   bool   `json:"boom,omitempty"` // makes every If-condition it reaches panic
 }
 
 func (p Probe) Key() string {
-	return p.Method + " " + p.Path + " ct=" + p.CT + " acc=" + p.Accept + fmt.Sprint(p.Body)
+	return p.Method + " " + p.Path + " ct=" + p.CT + " acc=" + p.Accept + fmt.Sprint(p.Body, p.Boom)
 }
 
 func (p Probe) Request(t *sim.Task, id int) *http.Request {
@@ -364,6 +386,9 @@ func (p Probe) Request(t *sim.Task, id int) *http.Request {
 	}
 	if p.Accept != "" {
 		hdr["Accept"] = p.Accept
+	}
+	if p.Boom {
+		hdr["X-Boom"] = "1"
 	}
 	if p.Body {
 		return NewReq(p.Method, p.Path, hdr, &sim.SimBody{Data: []byte("{}")}, 2, id)
@@ -457,6 +482,10 @@ func instantiate(template string, variant int) string {
 	var out []string
 	for i, seg := range strings.Split(strings.Trim(template, "/"), "/") {
 		switch {
+		case strings.HasPrefix(seg, "{") && strings.Contains(seg, "}:"):
+			// variable with a custom verb: value, then the verb (or a near miss)
+			verb := seg[strings.Index(seg, "}:")+1:]
+			out = append(out, []string{"x", "a", "7", "b"}[(variant+i)%4]+[]string{verb, verb, ":other", verb}[(variant+i)%4])
 		case strings.HasPrefix(seg, "{") && strings.HasSuffix(seg, ":*}"):
 			out = append(out, []string{"p/q", "t", "7/8/9"}[(variant+i)%3])
 		case strings.HasPrefix(seg, "{") && strings.Contains(seg, ":[0-9]+"):
